@@ -737,3 +737,35 @@ def rule_coder_write_guard(ctx):
             ctx.holds("WRITEGUARD", key, f.where(g[4]), "admits append and full rewrite, refuses partial rewrites", nontrivial=True)
     ctx.floor("WRITEGUARD", 3, n, "(write guards of the stream coders)")
     return n
+
+
+def rule_quotient_remainder_pair(ctx, files=("hdf/src/cnbit.c", "hdf/src/hbitio.c")):
+    """QUOTREM (C04, C05): a bit position is split into a byte index and a bit-in-byte index: `p / 8` and `p % 8` of the *same* p.  In a
+    routine of the bit-level coders that takes remainders by 8, every division by 8 must divide a quantity whose remainder by 8
+    is also taken there (and whose rendering is identical): `(p + 7) / 8` next to `p % 8` addresses the neighbouring byte whenever
+    p is a multiple of 8."""
+    from .facts import kind, strip, walk, render, is_int
+    prog = ctx.prog
+    n = 0
+    for f in prog.lib_funcs():
+        if not f.rel.endswith(tuple(files)):
+            continue
+        div, mod = {}, set()
+        for _b, _i, s, x in f.nodes(True):
+            if x[0] == "bin" and x[1] in ("/", "%") and is_int(x[3], 8):
+                r = render(strip(x[2]))
+                if x[1] == "/":
+                    div.setdefault(r, s.get("l", f.line))
+                else:
+                    mod.add(r)
+        if not mod:
+            continue
+        for r, line in sorted(div.items()):
+            n += 1
+            key = "QUOTREM:%s:%s" % (f.name, r[:40])
+            if r in mod:
+                ctx.holds("QUOTREM", key, f.where(line), "`%s / 8` has its `%% 8` partner on the same quantity" % r[:50], nontrivial=True)
+            else:
+                ctx.violated("QUOTREM", key, f.where(line), "`%s / 8` selects a byte, but the bit inside the byte is taken from `%s %% 8`: the two disagree when the position is a multiple of 8" % (r[:50], sorted(mod)[0][:50]))
+    ctx.floor("QUOTREM", 2, n, "(byte/bit splits of a bit position)")
+    return n
